@@ -99,7 +99,7 @@ func (s *verifSys) checkInvariants(step int) {
 			}
 		}
 		// per creator, transactions are committed once and in creation order
-		next := make([]int, len(s.nodes))
+		next := make([]int, 16)
 		for _, b := range a.blocks {
 			for _, tx := range b.Transactions() {
 				if len(tx) == 2 {
